@@ -119,6 +119,36 @@ func (env *Env) resolveType(te TypeExpr) (types.Type, Sort, string) {
 		if t, ok := universeTypes[te.Name]; ok {
 			return t, env.vc.sortOf(t), ""
 		}
+		if env.tr != nil && env.tr.fn != nil {
+			f := env.tr.fn
+			if o := f.Origin(); o != nil {
+				f = o
+			}
+			for p := f; p != nil; p = p.Parent() {
+				tps := p.TypeParams()
+				for i := 0; i < tps.Len(); i++ {
+					if tps.At(i).Obj().Name() == te.Name {
+						return tps.At(i), "Iface", ""
+					}
+				}
+				if sig := p.Signature; sig.Recv() != nil {
+					if n := namedOf(sig.Recv().Type()); n != nil {
+						rtp := n.TypeParams()
+						if rtp == nil || rtp.Len() == 0 {
+							if on := n.Origin(); on != nil {
+								rtp = on.TypeParams()
+							}
+						}
+						ta := n.TypeArgs()
+						for i := 0; ta != nil && i < ta.Len(); i++ {
+							if tp, ok := ta.At(i).(*types.TypeParam); ok && tp.Obj().Name() == te.Name {
+								return tp, "Iface", ""
+							}
+						}
+					}
+				}
+			}
+		}
 		if te.Name == "error" {
 			t := types.Universe.Lookup("error").Type()
 			return t, "Iface", ""
@@ -898,6 +928,17 @@ func (env *Env) elabCall(x *ECall) SV {
 				}
 				k := env.elab(x.Args[1])
 				return env.goSV(sel(sel(env.tr.getState(env.st, cnAt), cv.t), k.t), et)
+			case "implements":
+				// implements(x, T): the dynamic type of interface value x implements / is T (T an interface or type parameter)
+				v := env.elab(x.Args[0])
+				tn := exprToQualified(x.Args[1])
+				ty, _, _ := env.resolveType(TypeExpr{Kind: "name", Name: tn})
+				if ty == nil || v.sort != "Iface" {
+					return env.fail("implements(%s, %s)", x.Args[0].String(), tn)
+				}
+				pn := q("implements." + typeKey(ty))
+				env.vc.declFun("implements."+typeKey(ty), fmt.Sprintf("(declare-fun %s (Int) Bool)\n(assert (not (%s 0)))", pn, pn))
+				return env.boolSV(app(pn, "(itag "+v.t+")"))
 			case "lastres":
 				fid, ok := x.Args[0].(*EIdent)
 				if !ok {
